@@ -221,6 +221,127 @@ func c09DirectedRecipes() []*c09Recipe {
 	return res
 }
 
+// c09GenRestricted: recipes on which cc.ZeroWire()/cc.OneWire() are NOT both
+// created while the graph is built (they are lazy in compiler.go).
+// mode 0: neither constant (no wire carries a value: the hypothesis
+// [unvalued] of C09_options_no_constants); mode 1: only the zero wire;
+// mode 2: only the one wire.  Only raw gates and cc.OR (which needs no
+// constant), outputs are flagged sink wires (an ID gate would create the zero
+// wire).  With one constant ConstPropagate meets wires of the other value and
+// calls cc.OneWire()/cc.ZeroWire() itself: the constant gate is appended to
+// cc.Gates during the pass.
+func c09GenRestricted(r *RNG, maxSteps, mode int) *c09Recipe {
+	rc := &c09Recipe{NI: r.Range(1, 5)}
+	n := rc.NI
+	constIdx := -1
+	switch mode {
+	case 1:
+		rc.Steps = append(rc.Steps, c09Step{Kind: c09Zero})
+		constIdx = n
+		n++
+	case 2:
+		rc.Steps = append(rc.Steps, c09Step{Kind: c09One})
+		constIdx = n
+		n++
+	}
+	cons := make([]int, n)
+	gateOut := make([]bool, n)
+	pick := func() int {
+		if constIdx >= 0 && r.Intn(3) == 0 {
+			return constIdx
+		}
+		lo := len(cons) - 6
+		if lo < 0 || r.Intn(3) == 0 {
+			lo = 0
+		}
+		return lo + r.Intn(len(cons)-lo)
+	}
+	ops := []circuit.Operation{circuit.XOR, circuit.XNOR, circuit.AND, circuit.OR}
+	ns := r.Range(2, maxSteps)
+	for k := 0; k < ns; k++ {
+		var st c09Step
+		switch p := r.Intn(10); {
+		case p < 6:
+			st = c09Step{Kind: c09Raw, Op: int(ops[r.Intn(4)]), A: pick(), B: pick()}
+			if r.Intn(10) == 0 {
+				st.B = st.A
+			}
+		case p < 8:
+			st = c09Step{Kind: c09RawI, Op: int(circuit.INV), A: pick()}
+		default:
+			st = c09Step{Kind: c09OR, A: pick(), B: pick()}
+		}
+		rc.Steps = append(rc.Steps, st)
+		cons[st.A]++
+		if st.Kind != c09RawI {
+			cons[st.B]++
+		}
+		cons = append(cons, 0)
+		gateOut = append(gateOut, true)
+	}
+	var sinks []int
+	for i := range cons {
+		if gateOut[i] && cons[i] == 0 {
+			sinks = append(sinks, i)
+		}
+	}
+	// the last gate's output is always a sink
+	no := r.Range(1, 3)
+	for o := 0; o < no && len(sinks) > 0; o++ {
+		k := r.Intn(len(sinks))
+		rc.Outs = append(rc.Outs, c09Out{Idx: sinks[k], Direct: true})
+		sinks = append(sinks[:k], sinks[k+1:]...)
+	}
+	return rc
+}
+
+// c09LazyRecipes: in every run, (a) graphs without any constant wire, (b)
+// graphs with exactly one constant on which ConstPropagate creates the other
+// one lazily (directed: a wire of the missing value is produced from the
+// existing constant and then consumed), (c) random graphs of both kinds.
+func c09LazyRecipes(r *RNG, random int) []*c09Recipe {
+	var res []*c09Recipe
+	raw := func(op circuit.Operation, a, b int) c09Step { return c09Step{Kind: c09Raw, Op: int(op), A: a, B: b} }
+	inv := func(a int) c09Step { return c09Step{Kind: c09RawI, Op: int(circuit.INV), A: a} }
+	// (a) the example of PassesLazyExamples.v (ex0_graph) and a chain
+	res = append(res, &c09Recipe{NI: 3, Steps: []c09Step{raw(circuit.AND, 0, 1), raw(circuit.XOR, 3, 2), inv(1), raw(circuit.OR, 3, 0)},
+		Outs: []c09Out{{Idx: 4, Direct: true}, {Idx: 6, Direct: true}}})
+	res = append(res, &c09Recipe{NI: 2, Steps: []c09Step{raw(circuit.XOR, 0, 1), raw(circuit.AND, 2, 2), {Kind: c09OR, A: 3, B: 0}, inv(4)},
+		Outs: []c09Out{{Idx: 5, Direct: true}}})
+	// (b) zero only: idx 2 = zero; a One-valued wire is made from it and consumed
+	const in0, in1, k = 0, 1, 2
+	for _, mk := range []c09Step{inv(k), raw(circuit.XNOR, k, k)} {
+		for _, use := range []circuit.Operation{circuit.AND, circuit.XOR, circuit.OR, circuit.XNOR} {
+			rc := &c09Recipe{NI: 2}
+			rc.Steps = append(rc.Steps, c09Step{Kind: c09Zero}, mk) // w = 3 carries One after its iteration
+			rc.Steps = append(rc.Steps, raw(use, 3, in1))             // 4: g.A = cc.OneWire() inside ConstPropagate
+			rc.Steps = append(rc.Steps, raw(circuit.XOR, 4, in0))     // 5
+			rc.Steps = append(rc.Steps, raw(circuit.AND, in1, 3))     // 6: second consumer, B side
+			rc.Steps = append(rc.Steps, raw(circuit.OR, 5, 6))        // 7
+			rc.Outs = []c09Out{{Idx: 7, Direct: true}}
+			res = append(res, rc)
+		}
+	}
+	// one only: idx 2 = one; a Zero-valued wire is made from it and consumed
+	for _, mk := range []c09Step{inv(k), raw(circuit.XOR, k, k)} {
+		for _, use := range []circuit.Operation{circuit.AND, circuit.XOR, circuit.OR, circuit.XNOR} {
+			rc := &c09Recipe{NI: 2}
+			rc.Steps = append(rc.Steps, c09Step{Kind: c09One}, mk) // w = 3 carries Zero
+			rc.Steps = append(rc.Steps, raw(use, in1, 3))           // 4: g.B = cc.ZeroWire() inside ConstPropagate
+			rc.Steps = append(rc.Steps, raw(circuit.XOR, 4, in0))   // 5
+			rc.Steps = append(rc.Steps, raw(circuit.OR, 3, in1))    // 6
+			rc.Steps = append(rc.Steps, raw(circuit.AND, 5, 6))     // 7
+			rc.Outs = []c09Out{{Idx: 7, Direct: true}}
+			res = append(res, rc)
+		}
+	}
+	// (c) random
+	for i := 0; i < random; i++ {
+		res = append(res, c09GenRestricted(r.Fork(), 6+4*(i%5), i%3))
+	}
+	return res
+}
+
 // c09EvalRecipe is the harness's own meaning of a recipe.
 func c09EvalRecipe(rc *c09Recipe, x []bool) []bool {
 	v := append([]bool(nil), x...)
@@ -586,19 +707,28 @@ func c09Graphs(c *Ctx) error {
 	targets := []utils.Target{utils.TargetYao, utils.TargetGMW}
 	reprSeen := map[string]int{}
 	directed := c09DirectedRecipes()
-	for i := 0; i < n; i++ {
-		r := c.rng.Fork()
-		maxSteps := 30
-		if i%10 == 9 {
-			maxSteps = 60
-		}
-		if i%7 == 0 {
-			maxSteps = 8 // small cases for the in-kernel sub-sample
-		}
-		rc := c09GenRecipe(r, maxSteps)
-		if i < len(directed) {
-			rc = directed[i]
-			c.Hist("graph:directed-both-inputs-on-bypassed-wire")
+	// graphs without (one of) the constant wires: their own generator, seeded
+	// independently so that the main random stream is what it was
+	lazy := c09LazyRecipes(NewRNG(c.Seed^0xC09C0257A27), c.N(30, 1500))
+	for i := 0; i < n+len(lazy); i++ {
+		var rc *c09Recipe
+		if i < n {
+			r := c.rng.Fork()
+			maxSteps := 30
+			if i%10 == 9 {
+				maxSteps = 60
+			}
+			if i%7 == 0 {
+				maxSteps = 8 // small cases for the in-kernel sub-sample
+			}
+			rc = c09GenRecipe(r, maxSteps)
+			if i < len(directed) {
+				rc = directed[i]
+				c.Hist("graph:directed-both-inputs-on-bypassed-wire")
+			}
+		} else {
+			rc = lazy[i-n]
+			c.Hist("graph:family:constants-not-both-created-up-front")
 		}
 		c.Hist(fmt.Sprintf("graph:inputs:%d", rc.NI))
 		c.Hist(fmt.Sprintf("graph:outputs:%d", len(rc.Outs)))
@@ -659,11 +789,34 @@ func c09Graphs(c *Ctx) error {
 						}
 						reprSeen[rkey]++
 					} else {
-						c.Hist("graph:wfg-holds")
+						c.Hist("graph:wfg-holds") // structural part: wfg0, wfb, wfx and the exact lists of wfe; the clause about the constants is classified below (graph:theorem:...)
+						c.Hist("graph:structural-hypotheses-hold(wfg0,wfb,wfx,wfe)")
 					}
 					if !b.zeroMade || !b.oneMade {
 						c.Hist("graph:constants-created-lazily")
 					}
+					// which theorem covers this graph (the hypotheses about the constants:
+					// wf_consts of wfg, or [unvalued] of C09_options_no_constants)
+					switch {
+					case b.zeroMade && b.oneMade:
+						c.Hist("graph:theorem:C09_options+C09_no_panic_pipeline(both-constants)")
+					case !b.zeroMade && !b.oneMade:
+						c.Hist("graph:theorem:C09_options_no_constants(no-constant)")
+					default:
+						c.Hist("graph:theorem:none(one-constant:correspondence+oracle-only)")
+					}
+				}
+				// [unvalued], evaluated on the real graph
+				unvalued := true
+				for _, w := range num.wires {
+					if w.Value() != circuits.Unknown {
+						unvalued = false
+					}
+				}
+				if unvalued != (!b.zeroMade && !b.oneMade) {
+					c.Fail("c09:graph:unvalued-iff-no-constant-created",
+						"a wire carries a value although no constant wire was created (or none does although one was)",
+						c09GraphReplay{Seed: c.Seed, Case: i, Prune: prune, Target: tgt.String(), Recipe: rc})
 				}
 				ref := func(w *circuits.Wire, made bool) SX {
 					if !made {
@@ -721,14 +874,31 @@ func c09Graphs(c *Ctx) error {
 					prev = str
 					return true
 				}
+				gatesBefore := len(cc.Gates)
 				ok := step("ConstPropagate", cc.ConstPropagate) && snap()
 				if ok && prev != s0 {
 					c.Hist("pass:ConstPropagate-changed")
+				}
+				if ok && len(cc.Gates) != gatesBefore {
+					// cc.ZeroWire()/cc.OneWire() called from a substitution block
+					c.Hist("pass:ConstPropagate-created-a-constant-lazily")
+					if b.zeroMade && b.oneMade || len(cc.Gates) != gatesBefore+1 {
+						c.Fail("c09:graph:ConstPropagate:unexpected-gates-added",
+							"ConstPropagate added gates other than one missing constant gate", replay)
+					}
 				}
 				p1 := prev
 				ok = ok && step("ShortCircuitXORZero", cc.ShortCircuitXORZero) && snap()
 				if ok && prev != p1 {
 					c.Hist("pass:ShortCircuitXORZero-changed")
+				}
+				if ok && unvalued {
+					// C09_unvalued_passes_identity on the implementation
+					c.Hist("pass:identity-on-unvalued-graph-evaluated")
+					if p1 != s0 || prev != s0 {
+						c.Fail("c09:graph:no-constants:rewriting-pass-changes-graph",
+							"ConstPropagate or ShortCircuitXORZero changed a graph on which no wire carries a value", replay)
+					}
 				}
 				if ok && prune {
 					before := len(cc.Gates)
